@@ -57,7 +57,7 @@ func withProject(files map[string]string, f func(dir string) error) error {
 		}
 		err = f(dir)
 		intact := true
-		for _, p := range []string{"go.mod", "gqlgen.yml", "a.graphql", "graph"} {
+		for _, p := range []string{"go.mod", "gqlgen.yml", "graph"} {
 			if _, e := os.Stat(filepath.Join(dir, p)); e != nil {
 				intact = false
 			}
@@ -140,10 +140,50 @@ func regenerate(spec TreeSpec, pre *State, trackCompile bool) (*State, []Complai
 }
 
 // buildInitial produces the initial state of a tree: fresh generation, then the "user".
+//
+// When both schema sources map to ONE resolver file (merged layouts) the user's file is built
+// from a fresh generation with distinct resolver files (same options otherwise): each file is
+// edited, then the two are joined under the name the merged configuration uses. The initial
+// tree thus never depends on how the generator under test merges sources.
 func buildInitial(spec TreeSpec) (*State, error) {
 	sem <- struct{}{}
 	defer func() { <-sem }()
-	s0 := &State{Layout: spec.Layout, Opts: spec.Opts, Cur: initialSchema(), Gen: initialSchema(), Go: map[string]string{}}
+	merged := spec.Layout == layoutFollow && spec.Opts.merged()
+	base := spec
+	if merged {
+		base.Opts.Schema, base.Opts.FileTmpl = "", ""
+	}
+	target := spec.Opts.resolverFile("a")
+	split := false // "case": the generator under test may keep two files apart
+	if merged && spec.Opts.Schema == "case" {
+		probeSt := &State{Layout: spec.Layout, Opts: spec.Opts, Cur: initialSchema(), Gen: initialSchema(), Go: map[string]string{}}
+		err := withProject(probeSt.projectFiles(), func(dir string) error {
+			genRuns.Add(1)
+			if _, err := probe.RunGenerator(dir, dir, ""); err != nil {
+				return err
+			}
+			var rf []string
+			for p := range readGo(dir) {
+				if isResolverFile(spec.Layout, spec.Opts, p) {
+					rf = append(rf, p)
+				}
+			}
+			sort.Strings(rf)
+			switch len(rf) {
+			case 1:
+				target = rf[0]
+			case 2:
+				split = true
+			default:
+				return fmt.Errorf("fresh generation with %v wrote resolver files %v", spec.Opts, rf)
+			}
+			return nil
+		})
+		if err != nil {
+			return nil, err
+		}
+	}
+	s0 := &State{Layout: spec.Layout, Opts: base.Opts, Cur: initialSchema(), Gen: initialSchema(), Go: map[string]string{}}
 	err := withProject(s0.projectFiles(), func(dir string) error {
 		genRuns.Add(1)
 		res, err := probe.RunGenerator(dir, dir, "")
@@ -154,33 +194,58 @@ func buildInitial(spec TreeSpec) (*State, error) {
 			return fmt.Errorf("fresh generation failed (exit %d): %s", res.ExitCode, res.Output)
 		}
 		s0.Go = readGo(dir)
-		edited := 0
+		var edited []string
 		newFiles := map[string]string{}
-		for p, src := range s0.Go {
-			if !isResolverFile(spec.Layout, spec.Opts, p) {
+		for _, p := range goFiles(s0.Go) {
+			if !isResolverFile(base.Layout, base.Opts, p) {
 				continue
 			}
-			out, extra, err := userEdit(spec, p, src)
+			out, extra, err := userEdit(base, p, s0.Go[p])
 			if err != nil {
 				return err
 			}
 			s0.Go[p] = out
-			edited++
-			if err := os.WriteFile(filepath.Join(dir, p), []byte(out), 0o644); err != nil {
-				return err
-			}
+			edited = append(edited, p)
 			for ep, ec := range extra {
 				newFiles[ep] = ec
-				if err := os.WriteFile(filepath.Join(dir, ep), []byte(ec), 0o644); err != nil {
-					return err
-				}
 			}
 		}
-		if edited == 0 {
+		if len(edited) == 0 {
 			return fmt.Errorf("no resolver files generated")
+		}
+		if merged {
+			pa, pb := base.Opts.resolverFile("a"), base.Opts.resolverFile("b")
+			if len(edited) != 2 || s0.Go[pa] == "" || s0.Go[pb] == "" {
+				return fmt.Errorf("expected %s and %s, got %v", pa, pb, edited)
+			}
+			if split {
+				s0.Go[spec.Opts.resolverFile("a")], s0.Go[spec.Opts.resolverFile("b")] = s0.Go[pa], s0.Go[pb]
+				edited = []string{spec.Opts.resolverFile("a"), spec.Opts.resolverFile("b")}
+			} else {
+				m, err := mergeGo(s0.Go[pa], s0.Go[pb])
+				if err != nil {
+					return err
+				}
+				s0.Go[target] = m
+				edited = []string{target}
+			}
+			for _, p := range []string{pa, pb} {
+				if p != edited[0] && p != edited[len(edited)-1] {
+					delete(s0.Go, p)
+				}
+				os.Remove(filepath.Join(dir, p))
+			}
+		}
+		for _, p := range edited {
+			s0.Go[p] = encode(spec.Enc, s0.Go[p])
 		}
 		for ep, ec := range newFiles {
 			s0.Go[ep] = ec
+		}
+		for p, c := range s0.Go {
+			if err := os.WriteFile(filepath.Join(dir, p), []byte(c), 0o644); err != nil {
+				return err
+			}
 		}
 		ok, out := goBuild(dir)
 		if !ok {
@@ -189,6 +254,7 @@ func buildInitial(spec TreeSpec) (*State, error) {
 		s0.Compiles = 1
 		return nil
 	})
+	s0.Opts = spec.Opts
 	return s0, err
 }
 
@@ -370,8 +436,9 @@ func (t *Tree) step(d int) error {
 
 // option values explored besides the defaults
 var (
-	optTypes    = []string{"", "AppRoot", "rootResolver"} // default, custom exported, lower-case first letter
-	optFileTmpl = "res_{name}.go"
+	optTypes      = []string{"", "AppRoot", "rootResolver"} // default, custom exported, lower-case first letter
+	optFileTmpl   = "res_{name}.go"
+	optFileNoName = "all_resolvers.go" // no {name}: every schema source maps to this one file
 )
 
 func uniform(b string) []string {
@@ -384,7 +451,7 @@ func uniform(b string) []string {
 
 func plan(tier string) []*Tree {
 	var trees []*Tree
-	add := func(layout string, o Opts, bs []string, ds []string, depth int, events []Event) {
+	add := func(layout string, o Opts, enc string, bs []string, ds []string, depth int, events []Event) {
 		track := true
 		for _, d := range ds {
 			if declByName(d).Decls != "" || declByName(d).Twin != "" {
@@ -393,8 +460,9 @@ func plan(tier string) []*Tree {
 		}
 		if layout == layoutSingle {
 			o.FileTmpl = "" // the option only exists for follow-schema
+			o.Schema = ""   // where the schema sources live does not matter for a single resolver file
 		}
-		trees = append(trees, &Tree{Idx: len(trees), Spec: TreeSpec{Layout: layout, Opts: o, Bodies: bs, Decls: ds}, Depth: depth, Events: events, Track: track})
+		trees = append(trees, &Tree{Idx: len(trees), Spec: TreeSpec{Layout: layout, Opts: o, Enc: enc, Bodies: bs, Decls: ds}, Depth: depth, Events: events, Track: track})
 	}
 	group := func(g string) []string {
 		var out []string
@@ -417,15 +485,9 @@ func plan(tier string) []*Tree {
 	nMixed := (len(bodies) - 1 + len(positions) - 1) / len(positions)
 	layouts := []string{layoutFollow, layoutSingle}
 	all := append(append([]Event{}, baseEvents...), extraEvents...)
-	groups := []string{"decls", "imports", "imports2"}
 
 	// the project dimension: documented options of the resolver: section
 	def := Opts{}
-	exported := Opts{Type: optTypes[1]}
-	lower := Opts{Type: optTypes[2]}
-	omit := Opts{OmitDoc: true}
-	// one option per mixed tree, cyclically
-	mixedOpts := []Opts{exported, lower, omit}
 	// preserve_resolver trees are cheap: nothing is rewritten, two edits suffice
 	var preserveEvents []Event
 	for _, e := range baseEvents {
@@ -433,79 +495,94 @@ func plan(tier string) []*Tree {
 			preserveEvents = append(preserveEvents, e)
 		}
 	}
+	// per mixed tree: one resolver.type / comment option, one way of mapping both schema
+	// sources to ONE resolver file (follow-schema only) and one file encoding
+	mixedOpts := []Opts{
+		{Type: optTypes[1], Schema: "same-base"},
+		{Type: optTypes[2], Schema: "case"},
+		{OmitDoc: true, FileTmpl: optFileNoName},
+	}
+	mixedEnc := []string{"crlf", "mixed-eol", "bom"}
 	if tier == "quick" {
-		// depth 2 on the plain tree of the follow-schema layout, depth 1 everywhere else;
-		// every alphabet element and every option value occurs in some tree of either layout
-		add(layoutFollow, def, uniform("plain"), []string{"none"}, 2, baseEvents)
-		add(layoutSingle, def, uniform("plain"), []string{"none"}, 1, baseEvents)
+		// depth 2 on the plain tree of the follow-schema layout, depth 1 everywhere else; every
+		// alphabet element, option value, schema-file layout and file encoding occurs in some
+		// tree of either layout (schema-file layouts: follow-schema only)
+		add(layoutFollow, def, "", uniform("plain"), []string{"none"}, 2, baseEvents)
+		add(layoutSingle, def, "", uniform("plain"), []string{"none"}, 1, baseEvents)
 		for _, l := range layouts {
 			for t := 0; t < nMixed; t++ {
-				add(l, mixedOpts[t%len(mixedOpts)], mixed(t, 0), []string{"none"}, 1, baseEvents)
+				add(l, mixedOpts[t%len(mixedOpts)], mixedEnc[t%len(mixedEnc)], mixed(t, 0), []string{"none"}, 1, baseEvents)
 			}
 			// the declaration group refers to the root type and to the Query resolver struct
 			if l == layoutFollow {
-				add(l, Opts{Type: optTypes[1], FileTmpl: optFileTmpl}, uniform("plain"), group("decls"), 1, baseEvents)
+				add(l, Opts{Type: optTypes[1], FileTmpl: optFileTmpl}, "no-final-newline", uniform("plain"), group("decls"), 1, baseEvents)
 			} else {
-				add(l, lower, uniform("plain"), group("decls"), 1, baseEvents)
+				add(l, Opts{Type: optTypes[2]}, "no-final-newline", uniform("plain"), group("decls"), 1, baseEvents)
 			}
-			add(l, def, uniform("plain"), group("imports"), 1, baseEvents)
-			add(l, def, uniform("plain"), group("imports2"), 1, baseEvents)
-			add(l, Opts{Preserve: true}, uniform("plain"), []string{"helper-func"}, 1, preserveEvents)
+			add(l, def, "spaces", uniform("plain"), group("imports"), 1, baseEvents)
+			add(l, def, "nonascii-preamble", uniform("plain"), group("imports2"), 1, baseEvents)
+			add(l, Opts{Preserve: true}, "", uniform("plain"), []string{"helper-func"}, 1, preserveEvents)
 		}
 		return trees
 	}
 	// thorough: depth 3 on the plain trees; depth 2 on the mixed-body trees and on the groups
 	// of harmless declarations / imports; depth 1 (with the extra events) on the rotated
 	// mixed-body trees and on imports2; depth 1 on one tree per single alphabet element.
-	// Options: default on the depth-2/3 trees, one non-default option on each rotated mixed
-	// tree, and the full product type x filename_template x omit_template_comment assigned
-	// cyclically to the single-element trees (so every pair of option values occurs);
+	// Options: default on the depth-2/3 trees; the rotated mixed trees as in quick; on the
+	// single-element trees the full product type x filename_template x omit_template_comment
+	// cyclically (every pair of these values occurs), the schema-file layouts on a cycle that
+	// shifts by one per round of the product (every pair with type / template / comment option
+	// occurs after two rounds) and the encodings on a cycle of their own (length 7);
 	// preserve_resolver with every combination of the other options on cheap trees.
 	var product []Opts
 	for _, ty := range optTypes {
-		for _, ft := range []string{"", optFileTmpl} {
+		for _, ft := range []string{"", optFileTmpl, optFileNoName} {
 			for _, om := range []bool{false, true} {
 				product = append(product, Opts{Type: ty, FileTmpl: ft, OmitDoc: om})
 			}
 		}
 	}
+	schemas := []string{"", "same-base", "case"}
 	for _, l := range layouts {
-		add(l, def, uniform("plain"), []string{"none"}, 3, baseEvents)
+		add(l, def, "", uniform("plain"), []string{"none"}, 3, baseEvents)
 	}
 	for _, l := range layouts {
 		for t := 0; t < nMixed; t++ {
-			add(l, def, mixed(t, 0), []string{"none"}, 2, baseEvents)
-			add(l, mixedOpts[t%len(mixedOpts)], mixed(t, len(positions)/2), []string{"none"}, 1, all)
+			add(l, def, "", mixed(t, 0), []string{"none"}, 2, baseEvents)
+			add(l, mixedOpts[t%len(mixedOpts)], mixedEnc[t%len(mixedEnc)], mixed(t, len(positions)/2), []string{"none"}, 1, all)
 		}
-		add(l, def, uniform("plain"), group("decls"), 2, baseEvents)
-		add(l, def, uniform("plain"), group("imports"), 2, baseEvents)
-		add(l, def, uniform("plain"), group("imports2"), 1, all)
+		add(l, def, "", uniform("plain"), group("decls"), 2, baseEvents)
+		add(l, def, "", uniform("plain"), group("imports"), 2, baseEvents)
+		add(l, def, "", uniform("plain"), group("imports2"), 1, all)
 	}
-	_ = groups
 	for _, l := range layouts {
-		k := 0
-		next := func() Opts {
+		k, n := 0, 0
+		next := func() (Opts, string) {
 			for {
 				o := product[k%len(product)]
+				o.Schema = schemas[(k+k/len(product))%len(schemas)]
 				k++
 				if l == layoutSingle && o.FileTmpl != "" {
 					continue // same project as without it
 				}
-				return o
+				n++
+				return o, encodings[n%len(encodings)]
 			}
 		}
 		for _, b := range bodies[1:] {
-			add(l, next(), uniform(b.Name), []string{"none"}, 1, baseEvents)
+			o, e := next()
+			add(l, o, e, uniform(b.Name), []string{"none"}, 1, baseEvents)
 		}
 		for _, d := range decls[1:] {
-			add(l, next(), uniform("plain"), []string{d.Name}, 1, baseEvents)
+			o, e := next()
+			add(l, o, e, uniform("plain"), []string{d.Name}, 1, baseEvents)
 		}
 		for _, o := range product {
 			if l == layoutSingle && o.FileTmpl != "" {
 				continue
 			}
 			o.Preserve = true
-			add(l, o, uniform("plain"), []string{"helper-func"}, 1, preserveEvents)
+			add(l, o, "", uniform("plain"), []string{"helper-func"}, 1, preserveEvents)
 		}
 	}
 	return trees
@@ -747,7 +824,7 @@ func main() {
 		"body_alphabet": bn,
 		"package_names_reserved_by_resolver_gotpl_shadowed": templateNames,
 		"declaration_alphabet":                              dn,
-		"resolver_options":                                  map[string]any{"type": []string{"Resolver (default)", optTypes[1], optTypes[2]}, "filename_template": []string{"{name}.resolvers.go (default)", optFileTmpl}, "omit_template_comment": []bool{false, true}, "preserve_resolver": []bool{false, true}},
+		"resolver_options":                                  map[string]any{"type": []string{"Resolver (default)", optTypes[1], optTypes[2]}, "filename_template": []string{"{name}.resolvers.go (default)", optFileTmpl, optFileNoName}, "schema_files": []string{"a.graphql+b.graphql (default)", "same-base: schema/a/types.graphql+schema/b/types.graphql", "case: types.graphql+Types.graphql"}, "file_encoding": encodings, "omit_template_comment": []bool{false, true}, "preserve_resolver": []bool{false, true}},
 		"layouts":                                           []string{layoutFollow, layoutSingle},
 		"closure":                                           "every history is followed by two regenerations",
 		"state_identity":                                    "SHA-256 over layout, current schema files, schema of last generation, hand-editable Go files of the resolver package",
